@@ -84,8 +84,22 @@ pub fn build_cases(w: &World, thorough: bool) -> Vec<Case> {
                 }
             }
         }
+        // powers inside the exponent: the constant evaluator supports non-negative integer exponents;
+        // a negative or fractional inner exponent is outside what it evaluates (excluded, see below)
+        let mut unsupported: Vec<String> = vec![];
+        for (ta, a) in &ex_atoms {
+            for (tb, b) in &ex_atoms {
+                if b.1 == 1 && b.0 >= 0 {
+                    let k = b.0 as u32;
+                    exps.push((format!("({ta} ^ {tb})"), norm((a.0.pow(k), a.1.pow(k)))));
+                } else {
+                    unsupported.push(format!("({ta} ^ {tb})"));
+                }
+            }
+        }
         let d1 = exps.clone();
-        for (ta, a) in d1.iter().step_by(if thorough { 1 } else { 5 }) {
+        // quick tier: second level only over first-level expressions built from the atoms 2, 3, -1
+        for (ta, a) in d1.iter().filter(|(t, _)| thorough || !(t.contains("1/3") || t.contains("1/2") || t.contains('5'))) {
             for (tb, b) in &ex_atoms {
                 exps.push((format!("({ta} - {tb})"), norm((a.0 * b.1 - b.0 * a.1, a.1 * b.1))));
                 exps.push((format!("({tb} - {ta})"), norm((b.0 * a.1 - a.0 * b.1, a.1 * b.1))));
@@ -100,6 +114,10 @@ pub fn build_cases(w: &World, thorough: bool) -> Vec<Case> {
                 // ... and where the result type is pinned by an addition
                 let sum = X::Bin('+', Box::new(e.clone()), Box::new(X::Pow(Box::new(base.clone()), "1", (1, 1))));
                 cases.push(Case { code: sum.render(), expect: inf.infer(&sum), family: "constant exponent expression" });
+            }
+            for t in &unsupported {
+                // whether such an input is accepted is not specified; if it is, C01 judges its run
+                cases.push(Case { code: format!("({})^{t}", base.render()), expect: Err(Reject::Excluded("inner exponent the constant evaluator does not support".into())), family: "constant exponent expression" });
             }
         }
     }
